@@ -5,10 +5,13 @@ package main
 // C08 — no input makes a command crash or hang.
 
 import (
+	"bytes"
 	"fmt"
 	"os"
+	"os/exec"
 	"path/filepath"
 	"strings"
+	"syscall"
 	"testing"
 	"time"
 
@@ -483,7 +486,6 @@ func genC08(t *rapid.T) c08Case {
 	return c
 }
 
-
 // ---------------------------------------------------------------------------
 // very long chains of recipes (no cycle): the depth limit must answer, not the stack
 
@@ -516,6 +518,74 @@ func checkC08Deep(c c08DeepCase, ctx *vCtx) *vFailure {
 	return nil
 }
 
+// ---------------------------------------------------------------------------
+// the process environment: no HOME, no USER, a user id without an entry in the user database (a container started with
+// --user 54321): the program still answers with a report or an error, never with a crash
+
+type c08EnvCase struct {
+	UID  int      `json:"uid"`  // 0 = the current user
+	Env  []string `json:"env"`  // the whole environment of the process
+	Args []string `json:"args"` // @BOOK@ / @LOG@ are replaced
+}
+
+func checkC08Env(c c08EnvCase, ctx *vCtx) *vFailure {
+	bp := vWriteFile("c08-env-book.yaml", "meal:\n  x: 2\n")
+	lp := vWriteFile("c08-env-log.yaml", "2021/01/01:\n  meal: 1\n")
+	_ = os.Chmod(bp, 0o644)
+	_ = os.Chmod(lp, 0o644)
+	args := c08Subst(c.Args, bp, lp)
+	cmd := exec.Command(vRealBin, args...)
+	cmd.Env = append([]string{}, c.Env...)
+	cmd.Dir = "/"
+	if c.UID != 0 {
+		cmd.SysProcAttr = &syscall.SysProcAttr{Credential: &syscall.Credential{Uid: uint32(c.UID), Gid: uint32(c.UID)}}
+	}
+	var so, se bytes.Buffer
+	cmd.Stdout, cmd.Stderr = &so, &se
+	if err := cmd.Start(); err != nil {
+		vFault("cannot start the real binary (uid %d): %v", c.UID, err)
+	}
+	done := make(chan error, 1)
+	go func() { done <- cmd.Wait() }()
+	var werr error
+	select {
+	case werr = <-done:
+	case <-time.After(30 * time.Second):
+		_ = cmd.Process.Kill()
+		<-done
+		vHang("%q with environment %q under uid %d did not terminate within 30 s", c.Args, c.Env, c.UID)
+	}
+	ctx.Run(1)
+	ctx.NonTrivial(true)
+	ctx.Labelf("uid=%d", c.UID)
+	if ee, ok := werr.(*exec.ExitError); ok {
+		if ws, ok := ee.Sys().(syscall.WaitStatus); ok && ws.Signaled() {
+			return vFailf("%q with environment %q under uid %d is killed by signal %v", c.Args, c.Env, c.UID, ws.Signal())
+		}
+	}
+	if strings.Contains(se.String(), "panic:") || strings.Contains(se.String(), "goroutine ") || strings.Contains(se.String(), "fatal error:") {
+		return vFailf("%q with environment %q under uid %d crashes: %s", c.Args, c.Env, c.UID, vTrunc(se.String(), 1200))
+	}
+	if werr != nil && strings.TrimSpace(se.String()) == "" && strings.TrimSpace(so.String()) == "" {
+		return vFailf("%q with environment %q under uid %d fails without a message", c.Args, c.Env, c.UID)
+	}
+	return nil
+}
+
+func TestVerifC08Env(t *testing.T) {
+	var space []c08EnvCase
+	for _, uid := range []int{0, 54321} {
+		for _, env := range [][]string{{}, {"PATH=/usr/bin:/bin"}, {"PATH=/usr/bin:/bin", "HOME=/nonexistent"}, {"PATH=/usr/bin:/bin", "USER=nobody"}, {"HOME="}, {"PATH=/usr/bin:/bin", "HOME=/tmp", "USER=someone", "TZ=Nowhere/Atall"}} {
+			for _, args := range [][]string{{"--version"}, {"-d", "@BOOK@", "-l", "@LOG@", "reg"}, {"-d", "@BOOK@", "-l", "@LOG@", "stats"}, {"reg"}, {"--help"}} {
+				space = append(space, c08EnvCase{UID: uid, Env: env, Args: args})
+			}
+		}
+	}
+	vEnum(t, "C08", "c08.env",
+		"the real binary under the current user and under uid 54321 (no entry in the user database) with an empty environment, without HOME, without USER, with an empty HOME and with an unknown TZ, five command lines; no signal, no runtime trace, a message on failure",
+		fmt.Sprintf("%d combinations", len(space)), len(space), func(i int) c08EnvCase { return space[i] }, checkC08Env)
+}
+
 func TestVerifC08Deep(t *testing.T) {
 	links := []int{20000, 200000}
 	if vThorough() {
@@ -535,6 +605,7 @@ func TestVerifC08Deep(t *testing.T) {
 func init() {
 	vRegister("C08", "c08.random", checkC08)
 	vRegister("C08", "c08.deep", checkC08Deep)
+	vRegister("C08", "c08.env", checkC08Env)
 }
 
 func TestVerifC08Random(t *testing.T) {
